@@ -882,4 +882,25 @@ segment B has delivered), C and D composed with their deadlines (`C02_phase_lost
 3. zero-window probing for the queue (`C03_probe_*`), and the induction on outstanding + queued
    segments that turns the progress step into the drain. -/
 
+/-! non-vacuity of the hypotheses of `C02_phase_return`: after `Send`, A's flush and B's `Input` (`D = 0`)
+the state is consistent (by `cons_netRun`), B has passed offset 0, owes an ACK, and flushes by t = 1010 -/
+
+instance netNoWrapDec (base : U32) : (s : Sys.State) → (evs : List SysC.NetEv) → Decidable (SysC.NetNoWrap base s evs)
+  | s, [] => by unfold SysC.NetNoWrap; infer_instance
+  | s, ev :: rest => by
+    unfold SysC.NetNoWrap
+    have := netNoWrapDec base (SysC.netStep s ev) rest
+    infer_instance
+
+def c02RetEvs : List SysC.NetEv := [.fair (.send [0]), .fair .flushA, .fair .dlvB]
+
+example : (∃ gab gba, SysC.Cons ⟨SysC.wedgeA.snd_nxt, SysC.wedgeA.conv, 0, 0, 0⟩
+      (SysC.netRun (Sys.init SysC.wedgeA SysC.wedgeB 0 1000) c02RetEvs) gab gba) ∧
+    (SysC.netRun (Sys.init SysC.wedgeA SysC.wedgeB 0 1000) c02RetEvs).B.acklist ≠ [] ∧
+    0 < SysC.o SysC.wedgeA.snd_nxt (SysC.netRun (Sys.init SysC.wedgeA SysC.wedgeB 0 1000) c02RetEvs).B.rcv_nxt ∧
+    (SysC.netRun (Sys.init SysC.wedgeA SysC.wedgeB 0 1000) c02RetEvs).nfB ≤ 1010 ∧
+    (SysC.netRun (Sys.init SysC.wedgeA SysC.wedgeB 0 1000) c02RetEvs).now ≤ 1010 :=
+  ⟨SysC.cons_netRun c02RetEvs _ [] [] (SysC.cons_init _ _ 0 1000 false false (by decide)) (by decide),
+   by decide, by decide, by decide, by decide⟩
+
 end KcpVerif.Props
